@@ -708,7 +708,17 @@ class SimFS:
     def os_close(self, fd):
         sf = self._fd(fd)
         del self.fds[fd]
+        sf._fdno = None
         sf.close()
+
+    def alloc_fd(self, sf) -> int:
+        if not hasattr(self, "fds"):
+            self.fds = {}
+        fd = self.FD_BASE + len(self.fds)
+        while fd in self.fds:
+            fd += 1
+        self.fds[fd] = sf
+        return fd
 
     def os_fsync(self, fd):
         sf = self._fd(fd) if isinstance(fd, int) else fd
@@ -720,7 +730,7 @@ class SimFS:
 
     def fdopen(self, fd, mode="r", buffering=-1, encoding=None, errors=None, newline=None, closefd=True, opener=None):
         sf = self._fd(fd)
-        del self.fds[fd]
+        sf._fdno = fd  # the file object owns the descriptor now; fileno() keeps answering it
         sf.binary = "b" in mode
         sf.encoding = encoding or "utf-8"
         sf.errors = errors or "strict"
@@ -860,7 +870,11 @@ class SimFile:
         return False
 
     def fileno(self):
-        raise OSError(errno.EBADF, "SimFile has no file descriptor")
+        if self.closed:
+            raise ValueError("I/O operation on closed file")
+        if getattr(self, "_fdno", None) is None:
+            self._fdno = self.fs.alloc_fd(self)
+        return self._fdno
 
     def isatty(self):
         return False
@@ -978,6 +992,10 @@ class SimFile:
                 self.node.mtime = self.fs.now()
             self._buf = b""
         self.closed = True
+        fdno = getattr(self, "_fdno", None)
+        if fdno is not None:
+            getattr(self.fs, "fds", {}).pop(fdno, None)
+            self._fdno = None
         if self in self.fs.open_files:
             self.fs.open_files.remove(self)
 
